@@ -46,6 +46,12 @@ def _run(pid, prop, tier, seed, coop_cases, free_cases, rule, assumptions):
         c3, d3, s3, st3 = vlib.collect_runs(v, res3)
         distinct |= d3
         stats["server_level_drain_loop"] = dict(scenarios=int(c3.get("evaluations", 0)), **st3)
+        # the same server-level scenarios with every epoll_wait of the process delayed by 0-40 ms: the worker finds bigger batches in its queues
+        res4 = vlib.run_resumable(wbin, ["--prop", "c13s", "--seed", str(seed + 9), "--cases", str(3 if tier == "quick" else 80), "--poll-delay", "40"], 4,
+                                  timeout=300 if tier == "quick" else 7200, work=work, tag="sl")
+        c4, d4, s4, st4 = vlib.collect_runs(v, res4)
+        distinct |= d4
+        stats["server_level_drain_loop_late_loop_threads"] = dict(scenarios=int(c4.get("evaluations", 0)), poll_delays_injected=int(c4.get("counts", {}).get("poll_delays_injected", 0)), **st4)
     v.coverage.update(evaluations=int(counters.get("evaluations", 0)) + int(c2.get("evaluations", 0)), distinct_nontrivial=len(distinct),
                       distinct_interleavings=len(distinct), coop_schedules=int(counters.get("evaluations", 0)),
                       rule=rule, samples=samples[:6], monitor_counts=counters.get("counts", {}), **stats)
